@@ -4,7 +4,8 @@
   util/scatter.go, services/api/grpc/handlers/receiver, services/peers/static, slashingprotection.go,
   services/signer/standard: the batch signing loop and the pre-check, with core/result.go and rules/service.go for the
   enumerator values; services/ruler/golang/runner.go: RunRules and the head of runRules, with services/ruler/service.go
-  for the action constants);
+  for the action constants; services/lister/standard/listaccounts.go; services/api/grpc/handlers/signer: the batch paths of
+  SignBeaconAttestations and Multisign);
   Dirk/Props/KernelsEq.lean proves each definition
   equal to the hand-written model function.  A kernel outside the translatable fragment appears as
   `kernelUntranslatable_<name>` instead, and KernelsEq.lean does not build.
@@ -794,6 +795,187 @@ def listShapeGuards : List String := [
   "accounts := make([]e2wtypes.Account, 0)",
   "for _, path := range paths { … }",
   "return core.ResultSucceeded, accounts"
+]
+
+/-- `validateSignBeaconAttestationsRequests` (services/api/grpc/handlers/signer/signbeaconattestations.go), the function `SignBeaconAttestations` calls on the request: the guards of its loop `for i, request := range req.GetRequests()`
+    applied to ONE entry, in source order.  `some s`: the guard writes `pb.ResponseState_s` into `res.Responses[i].State` and the function
+    RETURNS (later entries are not looked at); `none`: the entry passes every guard.  Inputs: entryNil: `request == nil`; accountEmpty: `request.GetAccount() == ""`; keyNil: `request.GetPublicKey() == nil`; nameHasSlash: `strings.Contains(request.GetAccount(), "/")`; dataNil: `request.GetData() == nil`; sourceNil: `request.GetData().GetSource() == nil`; targetNil: `request.GetData().GetTarget() == nil`
+    (generated getters: nil-safe); model counterpart: `Dirk.handlerRejects (inside Dirk.firstRejected)`. -/
+def attsEntryVerdictGen (entryNil accountEmpty keyNil nameHasSlash dataNil sourceNil targetNil : Bool) : Option String :=
+  if entryNil then some "FAILED"
+  else if accountEmpty && keyNil then some "DENIED"
+  else if !accountEmpty && !nameHasSlash then some "DENIED"
+  else if dataNil then some "DENIED"
+  else if sourceNil then some "DENIED"
+  else if targetNil then some "DENIED"
+  else none
+
+/-- the statements of `validateSignBeaconAttestationsRequests`'s loop the definitions above were translated from, locals printed as their roles, in order -/
+def attsEntryVerdictGuards : List String := [
+  "if request == nil { res.Responses[i].State = pb.ResponseState_FAILED; return }",
+  "if request.GetAccount() == \"\" && request.GetPublicKey() == nil { res.Responses[i].State = pb.ResponseState_DENIED; return }",
+  "if request.GetAccount() != \"\" && !strings.Contains(request.GetAccount(), \"/\") { res.Responses[i].State = pb.ResponseState_DENIED; return }",
+  "if request.GetData() == nil { res.Responses[i].State = pb.ResponseState_DENIED; return }",
+  "if request.GetData().GetSource() == nil { res.Responses[i].State = pb.ResponseState_DENIED; return }",
+  "if request.GetData().GetTarget() == nil { res.Responses[i].State = pb.ResponseState_DENIED; return }"
+]
+
+/-- `validateMultisignRequests` (services/api/grpc/handlers/signer/multisign.go), the function `Multisign` calls on the request: the guards of its loop `for i, request := range req.GetRequests()`
+    applied to ONE entry, in source order.  `some s`: the guard writes `pb.ResponseState_s` into `res.Responses[i].State` and the function
+    RETURNS (later entries are not looked at); `none`: the entry passes every guard.  Inputs: entryNil: `request == nil`; accountEmpty: `request.GetAccount() == ""`; keyNil: `request.GetPublicKey() == nil`; nameHasSlash: `strings.Contains(request.GetAccount(), "/")`; dataNil: `request.GetData() == nil`; domainNil: `request.GetDomain() == nil`
+    (generated getters: nil-safe); model counterpart: `the predicate of Dirk.firstRejectedSign`. -/
+def msignEntryVerdictGen (entryNil accountEmpty keyNil nameHasSlash dataNil domainNil : Bool) : Option String :=
+  if entryNil then some "FAILED"
+  else if accountEmpty && keyNil then some "DENIED"
+  else if !accountEmpty && !nameHasSlash then some "DENIED"
+  else if dataNil then some "DENIED"
+  else if domainNil then some "DENIED"
+  else none
+
+/-- the statements of `validateMultisignRequests`'s loop the definitions above were translated from, locals printed as their roles, in order -/
+def msignEntryVerdictGuards : List String := [
+  "if request == nil { res.Responses[i].State = pb.ResponseState_FAILED; return }",
+  "if request.GetAccount() == \"\" && request.GetPublicKey() == nil { res.Responses[i].State = pb.ResponseState_DENIED; return }",
+  "if request.GetAccount() != \"\" && !strings.Contains(request.GetAccount(), \"/\") { res.Responses[i].State = pb.ResponseState_DENIED; return }",
+  "if request.GetData() == nil { res.Responses[i].State = pb.ResponseState_DENIED; return }",
+  "if request.GetDomain() == nil { res.Responses[i].State = pb.ResponseState_DENIED; return }"
+]
+
+/-- the enumerators of `pb.ResponseState` (github.com/wealdtech/eth2-signer-api v1.7.2, pb/v1/responsestate.pb.go, found in the vendor directory or the module cache) with their values,
+    `ResponseState_` stripped; `none` when the module's source cannot be located.  The kernels below name states by these NAMES. -/
+def pbResponseStateValuesGen : Option (List (String × Nat)) := some [("UNKNOWN", 0), ("SUCCEEDED", 1), ("DENIED", 2), ("FAILED", 3)]
+
+/-- (fixed text, not translated from any source) what a Go loop `for i, e := range xs { if C₁(e) { r[i].State = v₁; return }; …; if Cₘ(e) { r[i].State = vₘ; return } }`
+    does, given for every entry IN ORDER the verdict of its guards (`some v`: a guard holds, the first that does writes v; `none`: no guard
+    holds): it stops at the FIRST entry whose verdict is `some v`, having written v at that index and nothing anywhere else. -/
+def firstBadGen : List (Option String) → Option (Nat × String)
+  | [] => none
+  | some v :: _ => some (0, v)
+  | none :: rest => (firstBadGen rest).map (fun p => (p.1 + 1, p.2))
+
+/-- the handlers' exits before any per-entry response exists, in source order: `some l` = the states of the responses returned, `none` = the handler goes on.
+    reqNil: `req == nil`; n: `len(req.GetRequests())` (0 for a nil request: the getter is nil-safe); model counterpart: `the `items.isEmpty` branch of Dirk.hSignAtts / Dirk.hMultisign`.
+    (`SignBeaconAttestations` and `Multisign` give the same definition: the `if`s before `res.Responses = make(…, len(req.GetRequests()))`) -/
+def batchEarlyGen (reqNil : Bool) (n : Nat) : Option (List String) :=
+  if reqNil then some ["DENIED"]
+  else if (n == 0) then some ["DENIED"]
+  else none
+
+/-- … the two handlers were translated separately and the results are textually identical -/
+def batchEarlySameInBothGen : Bool := true
+
+/-- the statements of the two handlers the definitions above were translated from, locals printed as their roles, in order -/
+def batchEarlyGuards : List String := [
+  "SignBeaconAttestations: if req == nil { res.Responses = make([]*pb.SignResponse, 1); res.Responses[0] = &pb.SignResponse{State: pb.ResponseState_DENIED}; return res, nil }",
+  "SignBeaconAttestations: if len(req.GetRequests()) == 0 { res.Responses = make([]*pb.SignResponse, 1); res.Responses[0] = &pb.SignResponse{State: pb.ResponseState_DENIED}; return res, nil }",
+  "Multisign: if req == nil { res.Responses = make([]*pb.SignResponse, 1); res.Responses[0] = &pb.SignResponse{State: pb.ResponseState_DENIED}; return res, nil }",
+  "Multisign: if len(req.GetRequests()) == 0 { res.Responses = make([]*pb.SignResponse, 1); res.Responses[0] = &pb.SignResponse{State: pb.ResponseState_DENIED}; return res, nil }"
+]
+
+/-- what the handlers return right after the validation: the n = `len(req.GetRequests())` responses are created in the state shown by `List.replicate`,
+    the validation writes at most one of them — firstBad = `some (i, v)`: it stopped at entry i and wrote v there, CONTRACT: i is the least index < n whose
+    entry verdict (`attsEntryVerdictGen` / `msignEntryVerdictGen`) is `some v`, i.e. `firstBadGen` of the entries' verdicts; `none`: every entry passed —
+    and the loop after it returns the responses as soon as ONE of them is in a state of the test shown; `none`: it does not, the signer is called;
+    model counterpart: `the `firstRejected … = some i` branch of Dirk.hSignAtts / Dirk.hMultisign`.
+    (`SignBeaconAttestations` and `Multisign` give the same definition: creation state, early-return test) -/
+def batchAfterValidateGen (n : Nat) (firstBad : Option (Nat × String)) : Option (List String) :=
+  let responses := match firstBad with
+    | some (i, v) => (List.replicate n "UNKNOWN").set i v
+    | none => List.replicate n "UNKNOWN"
+  if responses.any (fun s => s == "DENIED" || s == "FAILED") then some responses else none
+
+/-- … the two handlers were translated separately and the results are textually identical -/
+def batchAfterValidateSameInBothGen : Bool := true
+
+/-- the statements of the two handlers the definitions above were translated from, locals printed as their roles, in order -/
+def batchAfterValidateGuards : List String := [
+  "SignBeaconAttestations: res.Responses = make([]*pb.SignResponse, len(req.GetRequests()))",
+  "SignBeaconAttestations: for i := range req.GetRequests() { res.Responses[i] = &pb.SignResponse{State: pb.ResponseState_UNKNOWN} }",
+  "SignBeaconAttestations: validateSignBeaconAttestationsRequests(ctx, req, res)",
+  "SignBeaconAttestations: validateSignBeaconAttestationsRequests: for i, request := range req.GetRequests() { if request == nil { res.Responses[i].State = pb.ResponseState_FAILED; return }; if request.GetAccount() == \"\" && request.GetPublicKey() == nil { res.Responses[i].State = pb.ResponseState_DENIED; return }; if request.GetAccount() != \"\" && !strings.Contains(request.GetAccount(), \"/\") { res.Responses[i].State = pb.ResponseState_DENIED; return }; if request.GetData() == nil { res.Responses[i].State = pb.ResponseState_DENIED; return }; if request.GetData().GetSource() == nil { res.Responses[i].State = pb.ResponseState_DENIED; return }; if request.GetData().GetTarget() == nil { res.Responses[i].State = pb.ResponseState_DENIED; return } }",
+  "SignBeaconAttestations: for i := range req.GetRequests() { if res.Responses[i].State == pb.ResponseState_DENIED || res.Responses[i].State == pb.ResponseState_FAILED { return res, nil } }",
+  "Multisign: res.Responses = make([]*pb.SignResponse, len(req.GetRequests()))",
+  "Multisign: for i := range req.GetRequests() { res.Responses[i] = &pb.SignResponse{State: pb.ResponseState_UNKNOWN} }",
+  "Multisign: validateMultisignRequests(ctx, req, res)",
+  "Multisign: validateMultisignRequests: for i, request := range req.GetRequests() { if request == nil { res.Responses[i].State = pb.ResponseState_FAILED; return }; if request.GetAccount() == \"\" && request.GetPublicKey() == nil { res.Responses[i].State = pb.ResponseState_DENIED; return }; if request.GetAccount() != \"\" && !strings.Contains(request.GetAccount(), \"/\") { res.Responses[i].State = pb.ResponseState_DENIED; return }; if request.GetData() == nil { res.Responses[i].State = pb.ResponseState_DENIED; return }; if request.GetDomain() == nil { res.Responses[i].State = pb.ResponseState_DENIED; return } }",
+  "Multisign: for i := range req.GetRequests() { if res.Responses[i].State == pb.ResponseState_DENIED || res.Responses[i].State == pb.ResponseState_FAILED { return res, nil } }"
+]
+
+/-- the `switch results[i]` that ends the handlers, arm by arm in source order, on `core.Result` VALUES (`coreResultValuesGen`): the state response i ends in and whether
+    `res.Responses[i].Signature = signatures[i]` is executed.  A value no arm names (last line) leaves the response as it was created — every response is still in
+    its creation state when the signer is called, every state the validation writes being caught by the early-return test; model counterpart: `Dirk.respond`.
+    (`SignBeaconAttestations` and `Multisign` give the same definition: arms, states, signature copies) -/
+def resultToStateGen (coreResult : Nat) : String × Bool :=
+  if coreResult = 1 then ("SUCCEEDED", true)
+  else if coreResult = 2 then ("DENIED", false)
+  else if coreResult = 3 then ("FAILED", false)
+  else if coreResult = 0 then ("UNKNOWN", false)
+  else ("UNKNOWN", false)
+
+/-- … the two handlers were translated separately and the results are textually identical -/
+def resultToStateSameInBothGen : Bool := true
+
+/-- the statements of the two handlers the definitions above were translated from, locals printed as their roles, in order -/
+def resultToStateGuards : List String := [
+  "SignBeaconAttestations: case core.ResultSucceeded: res.Responses[i].State = pb.ResponseState_SUCCEEDED; res.Responses[i].Signature = signatures[i]",
+  "SignBeaconAttestations: case core.ResultDenied: res.Responses[i].State = pb.ResponseState_DENIED",
+  "SignBeaconAttestations: case core.ResultFailed: res.Responses[i].State = pb.ResponseState_FAILED",
+  "SignBeaconAttestations: case core.ResultUnknown: res.Responses[i].State = pb.ResponseState_UNKNOWN",
+  "Multisign: case core.ResultSucceeded: res.Responses[i].State = pb.ResponseState_SUCCEEDED; res.Responses[i].Signature = signatures[i]",
+  "Multisign: case core.ResultDenied: res.Responses[i].State = pb.ResponseState_DENIED",
+  "Multisign: case core.ResultFailed: res.Responses[i].State = pb.ResponseState_FAILED",
+  "Multisign: case core.ResultUnknown: res.Responses[i].State = pb.ResponseState_UNKNOWN"
+]
+
+/-- `SignBeaconAttestations` and `Multisign` (services/api/grpc/handlers/signer/*.go), canonical facts about the batch path, locals printed as their roles; a fact that reads the same
+    in both handlers is listed once, the others once per handler.  The handlers' bodies consist of exactly the statements of `handlerShapeGuards` (and log calls); model counterpart: `Dirk.hSignAtts / Dirk.hMultisign (one response per entry, validation before the signer, `respond` after it)`. -/
+def handlerShapeGen : List String := [
+  "responses: res.Responses = make([]*pb.SignResponse, len(req.GetRequests())); for i := range req.GetRequests() { res.Responses[i] = &pb.SignResponse{State: pb.ResponseState_UNKNOWN} }",
+  "validation [SignBeaconAttestations]: validateSignBeaconAttestationsRequests(ctx, req, res) is called after the responses are created and before the signer",
+  "validation [Multisign]: validateMultisignRequests(ctx, req, res) is called after the responses are created and before the signer",
+  "early return: for i := range req.GetRequests() { if res.Responses[i].State == pb.ResponseState_DENIED || res.Responses[i].State == pb.ResponseState_FAILED { return res, nil } }",
+  "accountNames: accountNames := make([]string, len(req.GetRequests())); for i, request := range req.GetRequests(): accountNames[i] = request.GetAccount()",
+  "pubKeys: pubKeys := make([][]byte, len(req.GetRequests())); for i, request := range req.GetRequests(): pubKeys[i] = request.GetPublicKey()",
+  "reqData [SignBeaconAttestations]: reqData := make([]*rules.SignBeaconAttestationData, len(req.GetRequests())); for i, request := range req.GetRequests(): reqData[i] = &rules.SignBeaconAttestationData{Domain: request.GetDomain(), Slot: request.GetData().GetSlot(), CommitteeIndex: request.GetData().GetCommitteeIndex(), BeaconBlockRoot: request.GetData().GetBeaconBlockRoot(), Source: &rules.Checkpoint{Epoch: request.GetData().GetSource().GetEpoch(), Root: request.GetData().GetSource().GetRoot()}, Target: &rules.Checkpoint{Epoch: request.GetData().GetTarget().GetEpoch(), Root: request.GetData().GetTarget().GetRoot()}}",
+  "reqData [Multisign]: reqData := make([]*rules.SignData, len(req.GetRequests())); for i, request := range req.GetRequests(): reqData[i] = &rules.SignData{Domain: request.GetDomain(), Data: request.GetData()}",
+  "signer call [SignBeaconAttestations]: results, signatures := h.signer.SignBeaconAttestations(ctx, handlers.GenerateCredentials(ctx), accountNames, pubKeys, reqData) (the only call of the signer, after the early-return loop)",
+  "signer call [Multisign]: results, signatures := h.signer.Multisign(ctx, handlers.GenerateCredentials(ctx), accountNames, pubKeys, reqData) (the only call of the signer, after the early-return loop)",
+  "result loop: for i := range results { switch results[i] { … } }: response i takes the state and the signature the arm of results[i] gives it",
+  "return: return res, nil"
+]
+
+/-- the statements of the two handlers the definitions above were translated from, locals printed as their roles, in order -/
+def handlerShapeGuards : List String := [
+  "SignBeaconAttestations: res := &pb.MultisignResponse{}",
+  "SignBeaconAttestations: if req == nil { res.Responses = make([]*pb.SignResponse, 1); res.Responses[0] = &pb.SignResponse{State: pb.ResponseState_DENIED}; return res, nil }",
+  "SignBeaconAttestations: if len(req.GetRequests()) == 0 { res.Responses = make([]*pb.SignResponse, 1); res.Responses[0] = &pb.SignResponse{State: pb.ResponseState_DENIED}; return res, nil }",
+  "SignBeaconAttestations: res.Responses = make([]*pb.SignResponse, len(req.GetRequests()))",
+  "SignBeaconAttestations: for i := range req.GetRequests() { res.Responses[i] = &pb.SignResponse{State: pb.ResponseState_UNKNOWN} }",
+  "SignBeaconAttestations: validateSignBeaconAttestationsRequests(ctx, req, res)",
+  "SignBeaconAttestations: validateSignBeaconAttestationsRequests: for i, request := range req.GetRequests() { if request == nil { res.Responses[i].State = pb.ResponseState_FAILED; return }; if request.GetAccount() == \"\" && request.GetPublicKey() == nil { res.Responses[i].State = pb.ResponseState_DENIED; return }; if request.GetAccount() != \"\" && !strings.Contains(request.GetAccount(), \"/\") { res.Responses[i].State = pb.ResponseState_DENIED; return }; if request.GetData() == nil { res.Responses[i].State = pb.ResponseState_DENIED; return }; if request.GetData().GetSource() == nil { res.Responses[i].State = pb.ResponseState_DENIED; return }; if request.GetData().GetTarget() == nil { res.Responses[i].State = pb.ResponseState_DENIED; return } }",
+  "SignBeaconAttestations: for i := range req.GetRequests() { if res.Responses[i].State == pb.ResponseState_DENIED || res.Responses[i].State == pb.ResponseState_FAILED { return res, nil } }",
+  "SignBeaconAttestations: accountNames := make([]string, len(req.GetRequests()))",
+  "SignBeaconAttestations: pubKeys := make([][]byte, len(req.GetRequests()))",
+  "SignBeaconAttestations: reqData := make([]*rules.SignBeaconAttestationData, len(req.GetRequests()))",
+  "SignBeaconAttestations: for i, request := range req.GetRequests() { accountNames[i] = request.GetAccount(); pubKeys[i] = request.GetPublicKey(); reqData[i] = &rules.SignBeaconAttestationData{Domain: request.GetDomain(), Slot: request.GetData().GetSlot(), CommitteeIndex: request.GetData().GetCommitteeIndex(), BeaconBlockRoot: request.GetData().GetBeaconBlockRoot(), Source: &rules.Checkpoint{Epoch: request.GetData().GetSource().GetEpoch(), Root: request.GetData().GetSource().GetRoot()}, Target: &rules.Checkpoint{Epoch: request.GetData().GetTarget().GetEpoch(), Root: request.GetData().GetTarget().GetRoot()}} }",
+  "SignBeaconAttestations: results, signatures := h.signer.SignBeaconAttestations(ctx, handlers.GenerateCredentials(ctx), accountNames, pubKeys, reqData)",
+  "SignBeaconAttestations: for i := range results { switch results[i] { case core.ResultSucceeded: res.Responses[i].State = pb.ResponseState_SUCCEEDED; res.Responses[i].Signature = signatures[i] case core.ResultDenied: res.Responses[i].State = pb.ResponseState_DENIED case core.ResultFailed: res.Responses[i].State = pb.ResponseState_FAILED case core.ResultUnknown: res.Responses[i].State = pb.ResponseState_UNKNOWN } }",
+  "SignBeaconAttestations: return res, nil",
+  "Multisign: res := &pb.MultisignResponse{}",
+  "Multisign: if req == nil { res.Responses = make([]*pb.SignResponse, 1); res.Responses[0] = &pb.SignResponse{State: pb.ResponseState_DENIED}; return res, nil }",
+  "Multisign: if len(req.GetRequests()) == 0 { res.Responses = make([]*pb.SignResponse, 1); res.Responses[0] = &pb.SignResponse{State: pb.ResponseState_DENIED}; return res, nil }",
+  "Multisign: res.Responses = make([]*pb.SignResponse, len(req.GetRequests()))",
+  "Multisign: for i := range req.GetRequests() { res.Responses[i] = &pb.SignResponse{State: pb.ResponseState_UNKNOWN} }",
+  "Multisign: validateMultisignRequests(ctx, req, res)",
+  "Multisign: validateMultisignRequests: for i, request := range req.GetRequests() { if request == nil { res.Responses[i].State = pb.ResponseState_FAILED; return }; if request.GetAccount() == \"\" && request.GetPublicKey() == nil { res.Responses[i].State = pb.ResponseState_DENIED; return }; if request.GetAccount() != \"\" && !strings.Contains(request.GetAccount(), \"/\") { res.Responses[i].State = pb.ResponseState_DENIED; return }; if request.GetData() == nil { res.Responses[i].State = pb.ResponseState_DENIED; return }; if request.GetDomain() == nil { res.Responses[i].State = pb.ResponseState_DENIED; return } }",
+  "Multisign: for i := range req.GetRequests() { if res.Responses[i].State == pb.ResponseState_DENIED || res.Responses[i].State == pb.ResponseState_FAILED { return res, nil } }",
+  "Multisign: accountNames := make([]string, len(req.GetRequests()))",
+  "Multisign: pubKeys := make([][]byte, len(req.GetRequests()))",
+  "Multisign: reqData := make([]*rules.SignData, len(req.GetRequests()))",
+  "Multisign: for i, request := range req.GetRequests() { accountNames[i] = request.GetAccount(); pubKeys[i] = request.GetPublicKey(); reqData[i] = &rules.SignData{Domain: request.GetDomain(), Data: request.GetData()} }",
+  "Multisign: results, signatures := h.signer.Multisign(ctx, handlers.GenerateCredentials(ctx), accountNames, pubKeys, reqData)",
+  "Multisign: for i := range results { switch results[i] { case core.ResultSucceeded: res.Responses[i].State = pb.ResponseState_SUCCEEDED; res.Responses[i].Signature = signatures[i] case core.ResultDenied: res.Responses[i].State = pb.ResponseState_DENIED case core.ResultFailed: res.Responses[i].State = pb.ResponseState_FAILED case core.ResultUnknown: res.Responses[i].State = pb.ResponseState_UNKNOWN } }",
+  "Multisign: return res, nil"
 ]
 
 end Dirk.Gen
